@@ -114,6 +114,7 @@ package pub
 //@ [C10] ensures library_status: libWrote == 1 ==> status == 405 || status == 400 || status == 403 || status == 200
 //@ modifies gExists, gOwnsValue, gNCol
 //@ modifies nSent, gResp, gReplied, gActor, gMe, gIdentified
+//@ modifies gTotal
 
 //@ func (*pub.baseActor).PostInbox
 //@ params b, c, w, r
@@ -132,6 +133,7 @@ package pub
 //@ modifies $db, authed, cleared, typeUnknown, lacksId, lastBlocked, reqMissing, wrote, libWrote, status, sentHdr, bodyWrites, hdr, bufstr, H:net/url.URL.Host, H:net/url.URL.Scheme, A:Int, A:Iface, nDeliver, nNewID, actIdTick, leak, storedFollow, gMe, gObjWit, gDoc, gActWit
 //@ modifies gExists, gOwnsValue, gNCol
 //@ modifies nSent, gResp, gReplied, gActor, gMe, gIdentified
+//@ modifies gTotal
 
 //@ func (*pub.baseActor).PostOutboxScheme
 //@ params b, c, w, r, scheme
@@ -372,7 +374,7 @@ package pub
 
 //@ func (*pub.sideEffectActor).InboxForwarding
 //@ params a, c, inboxIRI, activity
-//@ modifies gExists, gOwnsValue, gNCol, nFilter, nCreate, lastCreated, nOwnsYes
+//@ modifies gExists, gOwnsValue, gNCol, nFilter, nCreate, lastCreated, nOwnsYes, gTotal
 //@ [C17] at call pub.Database.Exists#1: ghost gExists = $res0 && $res1 == nil
 //@ [C17] at call pub.Database.Exists#1: ghost gOwnsValue = false
 //@ [C17] at call pub.Database.Exists#1: ghost gNCol = 0
@@ -385,6 +387,13 @@ package pub
 //@ [C17] ensures forwarded_only_if_the_three_conditions_hold: nDeliver != old(nDeliver) ==> !gExists && gNCol > 0 && gOwnsValue
 //@ [C17] ensures forwarded_at_most_once: nDeliver <= old(nDeliver) + 1 && nFilter <= old(nFilter) + 1
 //@ [C17] ensures forwarded_if_the_three_conditions_hold: result == nil && !gExists && gNCol > 0 && gOwnsValue ==> nDeliver == old(nDeliver) + 1 && nFilter == old(nFilter) + 1
+//@ [C17] at call pub.FederatingProtocol.FilterForwarding#1: ghost gTotal = 0
+//@ [C17] at call pub.itemser.GetActivityStreamsItems#1: ghost gTotal = gTotal + plen($res0)
+//@ [C17] at call pub.orderedItemser.GetActivityStreamsOrderedItems#1: ghost gTotal = gTotal + plen($res0)
+//@ loop 6 [C17] invariant one_recipient_per_member_of_the_filtered_collections_so_far: len(recipients) == gTotal && nDeliver == old(nDeliver)
+//@ loop 7 [C17] invariant members_of_this_collection_so_far: it != nil && len(recipients) == gTotal - it.Len() + (iter == nil ? it.Len() : ipos(iter)) && (iter != nil ==> ilen(iter) == it.Len()) && nDeliver == old(nDeliver)
+//@ loop 8 [C17] invariant members_of_this_collection_so_far: oit != nil && len(recipients) == gTotal - oit.Len() + (iter == nil ? oit.Len() : ipos(iter)) && (iter != nil ==> ilen(iter) == oit.Len()) && nDeliver == old(nDeliver)
+//@ [C17] at call (*pub.sideEffectActor).deliverToRecipients#1: assert one_recipient_per_member_of_every_filtered_collection: len($arg4) == gTotal && $arg4 == recipients
 //@ [C17] at call pub.FederatingProtocol.FilterForwarding#1: assert application_filter_sees_the_owned_collections_and_the_activity: $arg2 == colIRIs && $arg3 == activity
 //@ [C17] at call (*pub.sideEffectActor).deliverToRecipients#1: assert forwards_the_received_activity_unchanged: $arg3 == activity && $arg2 == inboxIRI && props == old(props) && ASH == old(ASH) && ASHP == old(ASHP) && idval == old(idval) && hrefval == old(hrefval)
 //@ [C11] requires a != nil && a.db != nil && a.s2s != nil && a.common != nil && inboxIRI != nil && activity != nil
